@@ -59,6 +59,15 @@ type hist struct {
 	EPN     int      `json:"epn,omitempty"`
 	Writers int      `json:"writers"`
 	Ev      []hEvent `json:"ev"`
+	// KeyMid declares the table as columns='b, a primary key, c': one non-key column before the key, one after
+	KeyMid bool `json:"keymid,omitempty"`
+}
+
+func hColumns(keyMid bool) string {
+	if keyMid {
+		return "b, a primary key, c"
+	}
+	return "" // default: a primary key, b, c
 }
 
 func (h hist) String() string {
@@ -69,6 +78,9 @@ func (h hist) String() string {
 	b := "empty"
 	if h.Base == 1 {
 		b = "row(k0)@0"
+	}
+	if h.KeyMid {
+		b += " columns='" + hColumns(true) + "'"
 	}
 	return fmt.Sprintf("base=%s epn=%d [%s]", b, h.EPN, strings.Join(s, "; "))
 }
@@ -161,8 +173,8 @@ const selAll = "select a,b,c from {T} order by a"
 
 var hBaseCache = map[string]map[string][]byte{}
 
-func hBaseBucket(base, epn int) map[string][]byte {
-	key := fmt.Sprintf("%d/%d", base, epn)
+func hBaseBucket(base, epn int, keyMid bool) map[string][]byte {
+	key := fmt.Sprintf("%d/%d/%v", base, epn, keyMid)
 	if m, ok := hBaseCache[key]; ok {
 		return m
 	}
@@ -170,14 +182,14 @@ func hBaseBucket(base, epn int) map[string][]byte {
 	w.SetClock(engine.T(10))
 	if base == 1 {
 		c := w.NewClient("b0")
-		must(c.Create(engine.TableOpts{EPN: epn}))
+		must(c.Create(engine.TableOpts{EPN: epn, Columns: hColumns(keyMid)}))
 		must(c.SetWriteTime(engine.T(20)))
-		must(c.Exec("insert into {T} values(0,'b0','c0')"))
+		must(c.Exec("insert into {T}(a,b,c) values(0,'b0','c0')"))
 		if epn > 0 && epn < 4096 {
 			// filler rows so that small rows-per-object settings give a multi-level tree
 			must(c.Exec("begin"))
 			for i := 101; i <= 108; i++ {
-				must(c.Exec("insert into {T} values(?,?,?)", i, "fb", "fc"))
+				must(c.Exec("insert into {T}(a,b,c) values(?,?,?)", i, "fb", "fc"))
 			}
 			must(c.Exec("commit"))
 		}
@@ -209,9 +221,9 @@ func baseStmts(base int) []aStmt {
 // hStart opens the world and the writers on the base state.
 func hStart(h hist) *hRun {
 	r := &hRun{h: h}
-	r.w = engine.NewWorldOn(engine.NewBucketFrom(hBaseBucket(h.Base, h.EPN)))
+	r.w = engine.NewWorldOn(engine.NewBucketFrom(hBaseBucket(h.Base, h.EPN, h.KeyMid)))
 	r.w.SetClock(engine.T(50))
-	r.opts = engine.TableOpts{EPN: h.EPN}
+	r.opts = engine.TableOpts{EPN: h.EPN, Columns: hColumns(h.KeyMid)}
 	for i := 0; i < h.Writers; i++ {
 		c := r.w.NewClient(fmt.Sprintf("w%d", i+1))
 		must(c.Create(r.opts))
